@@ -1188,8 +1188,8 @@ def plan(tier, seed):
     if tier == 'quick':
         return ([{'kind': 'corpus'}] + [{'kind': 'random', 'seed': seed * 1000 + i, 'n': 25} for i in range(12)] +
                 [{'kind': 'dialogues', 'seed': seed * 1000 + 500 + i, 'n': 8} for i in range(3)])
-    return ([{'kind': 'corpus'}] + [{'kind': 'random', 'seed': seed * 100000 + i, 'n': 320} for i in range(64)] +
-            [{'kind': 'dialogues', 'seed': seed * 100000 + 50000 + i, 'n': 40} for i in range(16)])
+    return ([{'kind': 'corpus'}] + [{'kind': 'random', 'seed': seed * 100000 + i, 'n': 480} for i in range(64)] +
+            [{'kind': 'dialogues', 'seed': seed * 100000 + 50000 + i, 'n': 60} for i in range(16)])
 
 
 def run_case(case):
